@@ -31,7 +31,7 @@ ASSUMPTIONS = [
 ]
 BUDGET = {"quick": (32, 12), "thorough": (None, 40)}
 ARCHS = ["single", "couple", "single_parent", "couple_kids", "patchwork", "adult_child",
-         "three_gen", "pensioners", "teen_parent", "child_with_partner"]
+         "three_gen", "pensioners", "teen_parent", "child_with_partner", "pensioner_parent"]
 NODES = ["arbeitsl_geld_2_m_bg", "kinderzuschl_m_bg", "wohngeld_m_wthh", "grunds_im_alter_m_eg",
          "bg_id", "wthh_id", "arbeitsl_geld_2_eink_m_bg", "arbeitsl_geld_2_regelbedarf_m_bg",
          "_kinderzuschl_nach_vermög_check_m_bg", "wohngeld_anspruchshöhe_m_bg",
